@@ -70,6 +70,7 @@ class HTTP2Connection(ConnectionInterface):
         self._request_count = 0
         self._inflight_requests = 0
         self._init_lock = Lock()
+        self._stream_open_lock = Lock()
         self._state_lock = Lock()
         self._read_lock = Lock()
         self._write_lock = Lock()
@@ -154,20 +155,39 @@ class HTTP2Connection(ConnectionInterface):
                 self._request_closed()
             raise exc
 
+        stream_id: int | None = None
+        stream_given_up = False
         try:
-            stream_id = self._h2_state.get_next_available_stream_id()
-            self._events[stream_id] = []
-        except h2.exceptions.NoAvailableStreamIDError:  # pragma: nocover
-            self._used_all_stream_ids = True
-            self._request_count -= 1
-            self._release_stream_slot()
-            self._request_closed()
-            raise ConnectionNotAvailable()
+            # The h2 state only takes a stream ID out of use once the request
+            # headers are handed to it, and hands it out again if they never
+            # are. Streams are opened - or given up - one at a time, so that no
+            # two requests ever work with the same ID.
+            with self._stream_open_lock:
+                try:
+                    stream_id = self._h2_state.get_next_available_stream_id()
+                    self._events[stream_id] = []
+                except h2.exceptions.NoAvailableStreamIDError:  # pragma: nocover
+                    self._used_all_stream_ids = True
+                    self._request_count -= 1
+                    raise ConnectionNotAvailable()
 
-        try:
-            kwargs = {"request": request, "stream_id": stream_id}
-            with Trace("send_request_headers", logger, request, kwargs):
-                self._send_request_headers(request=request, stream_id=stream_id)
+                kwargs = {"request": request, "stream_id": stream_id}
+                try:
+                    with Trace(
+                        "send_request_headers", logger, request, kwargs
+                    ):
+                        self._send_request_headers(
+                            request=request, stream_id=stream_id
+                        )
+                except BaseException:
+                    # Once the lock is released the stream ID may belong to
+                    # another request: whatever happens, it is given up here.
+                    stream_given_up = True
+                    with ShieldCancellation():
+                        closing = {"stream_id": stream_id}
+                        with Trace("response_closed", logger, request, closing):
+                            self._response_closed(request, stream_id=stream_id)
+                    raise
             with Trace("send_request_body", logger, request, kwargs):
                 self._send_request_body(request=request, stream_id=stream_id)
             with Trace(
@@ -190,9 +210,16 @@ class HTTP2Connection(ConnectionInterface):
             )
         except BaseException as exc:  # noqa: PIE786
             with ShieldCancellation():
-                kwargs = {"stream_id": stream_id}
-                with Trace("response_closed", logger, request, kwargs):
-                    self._response_closed(request, stream_id=stream_id)
+                if stream_given_up:
+                    pass
+                elif stream_id is None:
+                    # The request ended before it was given a stream.
+                    self._release_stream_slot()
+                    self._request_closed()
+                else:
+                    kwargs = {"stream_id": stream_id}
+                    with Trace("response_closed", logger, request, kwargs):
+                        self._response_closed(request, stream_id=stream_id)
 
             if isinstance(exc, h2.exceptions.ProtocolError):
                 # One case where h2 can raise a protocol error is when a
